@@ -6,7 +6,7 @@
 (* computes in the state reached so far.  TLC is the judge; the harness    *)
 (* that recorded the trace contains no oracle.                             *)
 (***************************************************************************)
-EXTENDS FileSem, Abi, Features, AbiRef, Json, IOUtils
+EXTENDS FileSem, Abi, Features, AbiRef, Iter, Json, IOUtils
 
 Rec == ndJsonDeserialize(IOEnv.TRACE)
 
@@ -66,6 +66,14 @@ OkAcc(e) ==
                                              IF Val(VER_NDX(v)) = 0 THEN 1 ELSE 0,
                                              IF Val(VER_NDX(v)) = 1 THEN 1 ELSE 0 >>
 
+\* an optional walk over a second, identical iterator object: judged against the item list of the event
+\* (which is itself judged against the specification by the event's own rule)
+WalkFieldOk(e) ==
+    (Has(e, "walk") /\ e.res.n = Len(e.res.items)) =>
+        LET At(i) == IF e.op \in {"verdef_iter", "verneed_iter", "verdaux_iter", "vernaux_iter"}
+                     THEN e.res.items[i].f ELSE e.res.items[i]
+        IN Has(e.res, "walk") /\ e.res.walk.out = "ok" /\ WalkOk(At, Len(e.res.items), e.walk, e.res.walk.obs)
+
 \* C09: the table state machine
 OkTblStep(e) ==
     LET n == TblLen(tbl.ty, tbl.class, tbl.buf)
@@ -75,6 +83,9 @@ OkTblStep(e) ==
               LET r == TblGet(tbl.ty, tbl.class, tbl.little, tbl.buf, e.arg)
               IN /\ r.ok <=> (Val(e.arg) # Huge /\ Val(e.arg) < n)         \* get(i) ok iff i < len
                  /\ IF r.ok THEN Out(e) = "ok" /\ e.res.f = Pub(r.f) ELSE Out(e) = "err"
+         [] e.op = "tbl_walk" ->               \* the provided Iterator methods on one iterator of the table (Iter.tla)
+              LET At(i) == Pub(TblGet(tbl.ty, tbl.class, tbl.little, tbl.buf, W8(i - 1)).f)
+              IN Out(e) = "ok" /\ WalkOk(At, n, e.arg, e.res.obs)
          [] e.op \in {"tbl_iter", "tbl_into_iter"} ->
               LET items == IterAll(tbl.ty, tbl.class, tbl.little, tbl.buf)
               IN /\ Len(items) = n
@@ -89,6 +100,7 @@ OkIter(e) ==
     IN /\ Len(items) = Len(buf) \div CSize(e.ty, e.class)      \* exactly the whole entries
        /\ Out(e) = "ok" /\ e.res.n = Len(items)
        /\ e.res.items = [i \in 1..Len(items) |-> Pub(items[i])]
+       /\ WalkFieldOk(e)
 
 \* C15
 OkStr(e) ==
@@ -128,6 +140,7 @@ OkNotes(e) ==
           THEN e.res.n = Len(items) /\ e.res.items = items
           \* a GNU ABI-tag note without its 16-byte descriptor is outside C14: whatever comes before it is judged
           ELSE e.res.n >= Len(items) /\ SubSeq(e.res.items, 1, Len(items)) = items
+       /\ WalkFieldOk(e)
 
 \* C11 / C12
 OkHashFn(e) ==
@@ -175,6 +188,7 @@ OkVerIter(e) ==
             /\ kind \in {"verdef", "verneed"} =>
                  /\ e.res.items[i].aux = AuxOf(i)
                  /\ Len(AuxOf(i)) <= Val(items[i].aux.count)
+       /\ WalkFieldOk(e)
 
 SvOf(e) == [class |-> e.class, little |-> IsLittle(e.es), versym |-> e.versym,
             need |-> IF Has(e, "need") THEN [buf |-> e.need.buf, count |-> e.need.count, str |-> e.need.str] ELSE <<>>,
@@ -281,7 +295,7 @@ Allowed(e) ==
       [] e.op = "read_int" -> OkReadInt(e)
       [] e.op = "parse_at" -> OkParseAt(e)
       [] e.op = "acc" -> OkAcc(e)
-      [] e.op \in {"tbl_len", "tbl_empty", "tbl_get", "tbl_iter", "tbl_into_iter"} -> OkTblStep(e)
+      [] e.op \in {"tbl_len", "tbl_empty", "tbl_get", "tbl_iter", "tbl_into_iter", "tbl_walk"} -> OkTblStep(e)
       [] e.op = "iter" -> OkIter(e)
       [] e.op \in {"str_get_raw", "str_get"} -> OkStr(e)
       [] e.op = "ident" -> OkIdent(e)
@@ -289,7 +303,7 @@ Allowed(e) ==
       [] OTHER -> FALSE
 
 \* C01 / C06 riders on every event that has a result: no panic, no allocation (slice parser)
-NoPanic(e) == Has(e, "res") => Out(e) # "panic"
+NoPanic(e) == Has(e, "res") => (Out(e) # "panic" /\ (Has(e.res, "walk") => e.res.walk.out # "panic"))
 NoAlloc(e) == (Has(e, "allocs") /\ e.op \notin {"sopen", "sq"}) => e.allocs = 0
 \* C08 riders on stream calls: bounded allocation, lazy reads
 StreamBound(e) == CASE e.op = "sopen" -> AllocBound(e, FileOf(e.fileslot))
